@@ -242,8 +242,9 @@ def ref_apply(
             errs.add("RelationalAlgebraError")
         if errs:
             raise RefReject(errs, "chain")
+        rev = len(op) > 2 and op[2]
         return RefVal(
-            rows=rows + other.rows,
+            rows=(other.rows + rows) if rev else (rows + other.rows),
             cols=cols,
             det=(not sql) and val.det and other.det,
             amb=val.amb or other.amb,
